@@ -167,7 +167,7 @@ class LbWorld(object):
     self._after_step(name, op)
     return [(p.labels, p.chosen) for p in ch.points]
 
-  def _op_D(self):
+  def _op_D(self, reuse=False):
     from scales.message import MethodCallMessage
     from scales.constants import MessageProperties
     from scales.sink import ClientMessageSinkStack
@@ -175,7 +175,10 @@ class LbWorld(object):
     counts = {s: self.outstanding(s) for s in range(len(self.reg.channels))}
     self.rid += 1
     rid = self.rid
-    msg = MethodCallMessage(None, 'm', (), {})
+    if reuse:
+      msg = [r for r in self.requests if not r['done'] and r.get('msg') is not None][-1]['msg']
+    else:
+      msg = MethodCallMessage(None, 'm', (), {})
     msg.properties[MessageProperties.Endpoint] = None
     msg.properties['__rid'] = rid
     evt = None
@@ -209,7 +212,7 @@ class LbWorld(object):
       self.requests.append({'rid': rid, 'serial': None, 'done': True, 'stack': stack})
       return
     serial = got[0][1]
-    self.requests.append({'rid': rid, 'serial': serial, 'done': False, 'stack': stack})
+    self.requests.append({'rid': rid, 'serial': serial, 'done': False, 'stack': stack, 'msg': msg})
     chan = self.chan(serial)
     stamped = msg.properties.get(MessageProperties.Endpoint)
     if stamped != chan.endpoint:
@@ -266,6 +269,16 @@ class LbWorld(object):
       self._op_C(serial)
     finally:
       self.term.on_response = None
+
+  def _op_ReOpen(self):
+    """Open() is called again on the balancer after it has opened (what DispatcherOpen() on a client does): idempotent."""
+    self._reopened = True
+    self.lb.Open()
+
+  def _op_R(self):
+    """The message object of the most recent unanswered request is dispatched a second time while the first dispatch is still
+    outstanding (a retry / hedging layer re-sending the same message): both are ordinary, independent requests."""
+    self._op_D(reuse=True)
 
   def _op_TO(self, rid):
     """The deadline of a request that is still waiting for the balancer to open fires (what ClientTimeoutSink does: set the
@@ -380,6 +393,10 @@ class LbWorld(object):
             ops.append(['CX', r['serial']])
           if 'CD' in alpha:
             ops.append(['CD', r['serial']])
+    if 'ReOpen' in alpha and not self.loading and not getattr(self, '_reopened', False):
+      ops.append(['ReOpen'])
+    if 'R' in alpha and self.total_outstanding() < p.get('max_out', 4) and any(not r['done'] and r.get('msg') is not None for r in self.requests):
+      ops.append(['R'])
     if 'TO' in alpha:
       for r in self.requests:
         if r.get('waiting') and not r['done'] and r.get('evt') is not None:
@@ -671,6 +688,10 @@ class LbWorld(object):
     k.append(self._nnotif() if self.p.get('max_notifications') else 0)
     k.append(getattr(self, '_leavex', False))
     k.append(self.lp.wall_offset)
+    k.append(getattr(self, '_reopened', False))
+    live = [r for r in self.requests if not r['done'] and r.get('msg') is not None]
+    k.append(tuple(sorted((r['serial'], sum(1 for q in live if q['msg'] is r['msg'])) for r in live
+                          if sum(1 for q in live if q['msg'] is r['msg']) > 1)))       # outstanding requests that share a message object
     if self.m_ema is not None and self.p.get('c06'):
       k.append((round(self.m_ema[0], 9), round(now - self.m_ema[1], 6), self.lp.wall_offset))
     return repr(k)
